@@ -60,5 +60,6 @@ XEvent(r) ==
     \/ /\ r.ev = "macro_zst" /\ MacroZstOK(r) /\ UNCHANGED <<gaVars, xVars>>
     \/ /\ r.ev = "constrt" /\ ConstRtOK(r) /\ UNCHANGED <<gaVars, xVars>>
     \/ /\ r.ev = "big" /\ BigOK(r) /\ UNCHANGED <<gaVars, xVars>>
+    \/ /\ r.ev = "bigfold" /\ BigFoldOK(r) /\ UNCHANGED <<gaVars, xVars>>
     \/ /\ r.ev = "big_done" /\ r.ok /\ UNCHANGED <<gaVars, xVars>>
 =============================================================================
